@@ -21,7 +21,7 @@ from .common import facts_for, alg_classes, SPLINES
 from . import c01
 
 
-def rhs_rows(I, arr, Lf):
+def rhs_rows(I, arr, Lf, F=None, M=None):
     """The interior right-hand-side rows of the cubic system as (first row, count, row value in the run index RSYM,
     line): written either as one block assignment or by a unit-stride loop of its own."""
     rng = [r for r in I.effects_ranges if r[0] == arr]
@@ -38,9 +38,65 @@ def rhs_rows(I, arr, Lf):
                 continue
             ue = L.hi if L.cond_op == "<" else L.hi + 1
             cands.append((sp.expand(L.lo + c_), sp.expand(ue - L.lo), sub_vec(es[0].value, L.var, sym.RSYM + L.lo), es[0].line))
+    if not cands and F is not None:
+        cands = rhs_rows_shared_loop(I, arr, Lf, F, M)
     if len(cands) != 1:
-        raise Broken("cubic right-hand side rows not found (neither a block assignment nor a loop of their own)")
+        raise Broken("cubic right-hand side rows not found (neither a block assignment nor a loop writing them)")
     return cands[0]
+
+
+def rhs_rows_shared_loop(I, arr, Lf, F, M):
+    """Third form: the rows are written inside a loop that also does other work, possibly only for some kinds of
+    iteration (a guard on the loop index).  The loop is interpreted once per iteration kind; the rows written are
+    those of the kinds in which the assignment executes."""
+    runs = {k: c01.run_solver(F, M, dict(blocks.CASES[k]))[0] for k in ("first", "middle", "last")}
+    cands = []
+    for L in I.loops:
+        if L is Lf or L.inner or L.step != 1 or L.hi is None or L.cond_op not in ("<", "<="):
+            continue
+        es = [e for e in L.effects if e.target == arr]
+        if len(es) != 1 or es[0].op != "=" or not isinstance(es[0].value, Vec) or len(es[0].key) != 1:
+            continue
+        c_ = sp.expand(es[0].key[0] - L.var)
+        if L.var in c_.free_symbols:
+            continue
+        wr = {}
+        for k, Ik in runs.items():
+            Lk = [x for x in Ik.loops if x.line == L.line and x.var == L.var]
+            if len(Lk) != 1:
+                raise Broken("loop at line %s not found in the %s-iteration run" % (L.line, k))
+            ek = [e for e in Lk[0].effects if e.target == arr]
+            if len(ek) > 1 or (ek and (ek[0].op != "=" or not sym.is_zero(ek[0].key[0] - es[0].key[0]))):
+                raise Broken("right-hand side rows written differently in the %s iteration (line %s)" % (k, L.line))
+            wr[k] = ek[0] if ek else None
+        if wr["middle"] is None:
+            continue
+        for k in ("first", "last"):
+            if wr[k] is not None and not vec_zero(norm_vec(wr[k].value).add(norm_vec(wr["middle"].value), -1)):
+                raise Broken("right-hand side row formula differs in the %s iteration (line %s)" % (k, L.line))
+        ue = L.hi if L.cond_op == "<" else L.hi + 1
+        lo_w = L.lo + (0 if wr["first"] is not None else 1)
+        ue_w = ue - (0 if wr["last"] is not None else 1)
+        val = same_loop_rows(wr["middle"].value, L, lo_w)
+        cands.append((sp.expand(lo_w + c_), sp.expand(ue_w - lo_w), sub_vec(val, L.var, sym.RSYM + lo_w), es[0].line))
+    return cands
+
+
+def same_loop_rows(val, L, lo_w):
+    """Rows of an array this very loop defines (one unconditional assignment at the loop index) read at an earlier
+    index: the value the earlier iteration stored, provided that iteration exists for every iteration that reads."""
+    out = Vec()
+    for a, c in val.t.items():
+        name = str(a[0]).split("#")[0]
+        if len(a) == 2 and not isinstance(a[1], str):
+            d = sp.expand(a[1] - L.var)
+            ds = [e for e in L.effects if e.target == name]
+            if d.is_Integer and d < 0 and len(ds) == 1 and ds[0].op == "=" and not ds[0].guards and len(ds[0].key) == 1 and ds[0].key[0] == L.var \
+                    and isinstance(ds[0].value, Vec) and sp.expand(lo_w + d - L.lo).is_nonnegative:
+                out = out.add(same_loop_rows(sub_vec(ds[0].value, L.var, L.var + d), L, lo_w + d).scale(c))
+                continue
+        out = out.add(Vec({a: c}))
+    return out
 
 
 def strip_tag(a):
@@ -390,7 +446,7 @@ def check_cubic(chk, F, M, I, rows, i, roles, J, m):
     chk.ob("C02-R3", "%s forward sweep covers rows 1..N-1" % cls, Lf.lo == 1 and sym.is_zero(Lf.hi - n) and Lf.step == 1 and Lf.cond_op == "<", loc(g, {"line": Lf.line}),
            "range %s..%s" % (Lf.lo, Lf.hi), construct=cls + "/thomas/forward-range")
     # system row i: b_i x_{i-1} + a_i x_i + c_i x_{i+1} = rhs_i   with rhs from the range assignment
-    rstart, rcount, rvec, rline = rhs_rows(I, arr, Lf)
+    rstart, rcount, rvec, rline = rhs_rows(I, arr, Lf, F, M)
     rhs_m = sub_vec(ex_v(rvec), sym.RSYM, m - rstart)
     eq = Vec.atom((arr, sp.expand(m - 1))).scale(Bc.subs(iv, m)).add(Vec.atom((arr, sp.expand(m))).scale(Ac.subs(iv, m))).add(Vec.atom((arr, sp.expand(m + 1))).scale(Cc.subs(iv, m))).add(rhs_m, -1)
     ok, ranks = rank_equal([eq.clean()], J, 1)
@@ -524,7 +580,7 @@ def cubic_rows(F, M):
     if len(e_c) != 1:
         raise Broken("c' recurrence not recognised")
     Cc = sp.simplify(M.expand_scalar(e_c[0].value) * den)
-    rstart, rcount, rvec, rline = rhs_rows(I, arr, Lf)
+    rstart, rcount, rvec, rline = rhs_rows(I, arr, Lf, F, M)
 
     def interior(mm):
         rhs_m = sub_vec(ex_v(rvec), sym.RSYM, mm - rstart)
